@@ -494,15 +494,24 @@ func docReplay(o docOpts) func(payload json.RawMessage) (string, bool) {
 		if err := json.Unmarshal(payload, &c); err != nil {
 			return err.Error(), false
 		}
-		x := explore.Replay(c.Choices, func(x *explore.X) {})
-		_ = x
 		var doc docgen.Doc
-		xx := explore.Replay(c.Choices, func(x *explore.X) {
-			g := &docgen.Gen{X: x, Focus: c.Focus}
-			doc = g.Pipeline()
-		})
-		if xx.Diverged != "" {
-			return "replay diverged: " + xx.Diverged, false
+		if strings.HasPrefix(c.Descr, "scale: ") {
+			for _, d := range docgen.ScaleDocs() {
+				if d.Descr == c.Descr {
+					doc = d
+				}
+			}
+			if doc.In == nil {
+				return "unknown scale document " + c.Descr, false
+			}
+		} else {
+			xx := explore.Replay(c.Choices, func(x *explore.X) {
+				g := &docgen.Gen{X: x, Focus: c.Focus}
+				doc = g.Pipeline()
+			})
+			if xx.Diverged != "" {
+				return "replay diverged: " + xx.Diverged, false
+			}
 		}
 		text, err := docgen.Render(doc.In, c.Presentation)
 		if err != nil {
@@ -526,6 +535,7 @@ func docReplay(o docOpts) func(payload json.RawMessage) (string, bool) {
 func c03run(w *report.W) {
 	o := docOpts{normalForm: true}
 	pres := []string{"json", "yaml-block"}
+	runScaleDocs(w, o)
 	if !w.Thorough() {
 		runDocs(w, "aliases", []string{"s0.cmd.key", "s0.cmd.label", "s0.cmd.form"}, 1, pres, o, 0)
 		runDocs(w, "all-2dev", nil, 2, pres, o, 0)
@@ -541,6 +551,40 @@ func c03run(w *report.W) {
 	}
 }
 
+// runScaleDocs evaluates the documents whose size grows (docgen.ScaleDocs) in both input formats.
+func runScaleDocs(w *report.W, o docOpts) {
+	for _, doc := range docgen.ScaleDocs() {
+		for _, pres := range []string{"yaml-block", "json"} {
+			if pres == "json" && (strings.Contains(doc.Descr, "merg") || strings.Contains(doc.Descr, "anchor")) {
+				continue // merges and aliases exist in YAML only
+			}
+			text, err := docgen.Render(doc.In, pres)
+			if err != nil {
+				w.HarnessError("render %s %s: %v", doc.Descr, pres, err)
+				return
+			}
+			if !w.Take("scale|" + pres + "|" + doc.Descr) {
+				continue
+			}
+			w.P.Evaluations++
+			w.P.Nontrivial++
+			oo := o
+			oo.yamlLegOK = true
+			fs, harness := evalDoc(doc, text, oo)
+			if harness != "" {
+				w.HarnessError("%s [%s]", harness, doc.Descr)
+				return
+			}
+			w.Obs(fmt.Sprintf("scale pres=%s findings=%d", pres, len(fs)))
+			w.Count("scale_documents", 1)
+			for _, f := range fs {
+				w.Violate(report.Violation{Kind: f.kind, Case: fmt.Sprintf("[%s] %s: %s", pres, doc.Descr, clipStr(strings.TrimSpace(text), 400)), Detail: clipStr(f.detail, 1500),
+					GoTest: docGoTest(text, f.kind), Size: 60 + len(text)/400, Replay: docCase{Presentation: pres, Descr: doc.Descr, Text: text}})
+			}
+		}
+	}
+}
+
 func c09run(w *report.W) {
 	seamconfReport(w)
 	o := docOpts{fixpoint: true}
@@ -552,6 +596,7 @@ func c09run(w *report.W) {
 		runDocs(w, "all-3dev", nil, 3, pres, o, 0)
 		runDocs(w, "shorthands", []string{"s0.cmd.plugins", "s0.cmd.matrix", "s0.cmd.cache", "s0.cmd.env"}, 1, []string{"json", "yaml-block"}, o, 0)
 	}
+	runScaleDocs(w, o)
 	c09strings(w)
 }
 
